@@ -228,6 +228,10 @@ func (u *upstream) getClient(addr string) (*client, error) {
 	}
 	c, err := u.createClient(addr)
 	call.res, call.err = c, err
+	// The call only shares one connect attempt among the callers waiting
+	// for it. Forget it afterwards, otherwise its result (an error, or a
+	// client which has exited meanwhile) would be handed out forever.
+	u.createClientCalls.Delete(addr)
 	close(call.done)
 	return c, err
 }
